@@ -44,7 +44,7 @@ ASSUMPTIONS = [
     "same-instant ordering between events follows creation order (C01)",
 ]
 EXPECTED_PROBES = ["probe.prepared_event_yielded_as_side_effect", "probe.future_awaited_again_after_resolution",
-                   "probe.same_future_twice_in_one_combinator", "probe.non_native_generator", "probe.future_object_as_value", "probe.shared_leaf_woke_two", "probe.shared_empty_list_form", "probe.pre_resolved_wait", "probe.resolve_twice", "probe.nested_combinator",
+                   "probe.same_future_twice_in_one_combinator", "probe.process_hosted_by_once_callback", "probe.non_native_generator", "probe.future_object_as_value", "probe.shared_leaf_woke_two", "probe.shared_empty_list_form", "probe.pre_resolved_wait", "probe.resolve_twice", "probe.nested_combinator",
                    "probe.hook_on_process", "probe.sub_generator", "probe.any_ambiguous_at_build",
                    "probe.sub_ns_delay_truncated"]
 SHRINK_SKIP = ("futures",)
@@ -175,6 +175,7 @@ def run(sc):
     counters["probe.future_object_as_value"] = int("'fut':" in repr(sc))
     counters["probe.prepared_event_yielded_as_side_effect"] = int("'prepared'" in repr(sc["procs"]))
     counters["probe.future_awaited_again_after_resolution"] = int("'again': True" in repr(sc["procs"]))
+    counters["probe.process_hosted_by_once_callback"] = int(any(p.get("host_once") for p in sc["procs"]))
     counters["probe.same_future_twice_in_one_combinator"] = int(_dup_leaf(sc))
     counters["probe.parked_forever"] = int(len(ref.waiting) > 0)
     counters[f"loop.{sc.get('loop')}"] = 1
